@@ -71,7 +71,38 @@ var newTargets = []string{
 	"bitword.bitWord.FirstDiff",
 }
 
-var targetList = append(append([]string{}, legacyTargets...), newTargets...)
+// The TARGET LIST of ssa2lean3 (generated into lean/Generated/Ssa3, namespace
+// Low.Gen.Ssa3): functions that allocate and write slices, nested loops.
+var gen3Targets = []string{
+	"bitmap.IndexRank64",
+	"bitmap.IndexRank128",
+	"bitmap.IndexSelect32",
+	"bitmap.ToArray",
+	"bitmap.Of",
+	"bitmap.Slice",
+	"bitmap.Join",
+	"sigbits.get64Bits",
+	"sigbits.sFirstDiffBit",
+	"sigbits.FirstDiffBits",
+	"sigbits.countPrefixes",
+	"bitword.bitWord.FromStr",
+	"bitword.bitWord.ToStr",
+	"bitstr.New",
+	"bmtree.AllPaths",
+	"bmtree.Decode",
+	"bmtree.PathsOf",
+	"bitmap.OfMany",
+	"bitmap.IndexSelect32R64",
+	"sigbits.SigBits.CountPrefixes",
+	"bitmap.Builder.Extend",
+	"bitmap.Builder.Set",
+	"bitmap.TailBitmap.Set",
+	"bitmap.TailBitmap.Compact",
+	"bitmap.TailBitmap.Get",
+	"bitmap.TailBitmap.Get1",
+}
+
+var targetList = append(append(append([]string{}, legacyTargets...), newTargets...), gen3Targets...)
 
 func fatalf(format string, args ...interface{}) {
 	fmt.Fprintf(os.Stderr, "ssa2lean2: FATAL: "+format+"\n", args...)
